@@ -441,6 +441,17 @@ Ltac wp_step leaf call :=
   | |- res ?PD _ (foldO _ _ _ >>> _) =>
       eapply (res_bind PD); [apply foldO_res; [intros ? ? _ ?|] | intros ? ?]
   | |- res _ _ (foldO _ _ _) => apply foldO_res; [intros ? ? _ ?|]
+  | |- res _ _ (match send ?m ?c ?x ?f with _ => _ end) =>
+      let H := fresh "Hs" in
+      pose proof (send_ms m c x f) as H; destruct (send m c x f) as [[? ? ?]|[? ? ?]|?];
+      cbn in H; unfold same_ms in H; cbn in H; [subst|subst|]
+  | |- res _ _ (match send_or_remove ?m ?c ?x ?f with _ => _ end) =>
+      let H := fresh "Hs" in
+      pose proof (send_or_remove_ms m c x f never) as H; destruct (send_or_remove m c x f) as [[? ? ?]|[? ? ?]|?];
+      cbn in H; unfold same_ms in H; cbn in H; [subst|contradiction|]
+  | |- res _ _ (Done _ >>> _) => cbn [andThen]
+  | |- res _ _ ((match ?x with _ => _ end) >>> _) => destruct x eqn:?
+  | |- res ?PD _ (_ >>> _) => eapply (res_bind PD); [call | intros ? ?]
   | |- res _ _ (match ?x with _ => _ end) => destruct x eqn:?
   | |- res _ _ (if ?x then _ else _) => destruct x eqn:?
   | |- res _ _ (let _ := _ in _) => cbv zeta
